@@ -1010,12 +1010,23 @@ func addFaults(r *core.RNG, sc *cliScenario, x *cliExec) *cliScenario {
 		}
 		return nil
 	}
+	stdinFailed := false
 	var outside [][2]interface{} // (step, file) pairs: the file is put back after the step
 	nf := r.Range(1, 2)
 	for k := 0; k < nf; k++ {
 		si := pickStep()
 		rs := c.Steps[si].Run
 		tr := traceOf(si)
+		if rs.Stdin != "" && !rs.StdinFile && r.Chance(1, 12) {
+			// the producer behind the stdin pipe dies: a read error part-way
+			if d, ok := c.Files[rs.Stdin]; ok {
+				if n := len(d.bytes()); n > 1 {
+					rs.StdinFail = 1 + r.Intn(n-1)
+					stdinFailed = true
+					continue
+				}
+			}
+		}
 		switch r.Pick([]int{36, 22, 30, 12}) {
 		case 3: // another program rewrites an input file while gts is reading it
 			var files []string
@@ -1107,16 +1118,17 @@ func addFaults(r *core.RNG, sc *cliScenario, x *cliExec) *cliScenario {
 			rs.SinkLimit = &b
 			// a full disk behind a redirection, a failing device, or a reader
 			// that went away (gts ... | head)
-			rs.SinkErr = []string{"", "", "epipe", "epipe", "eio"}[r.Intn(5)]
+			rs.SinkErr = []string{"", "", "epipe", "epipe", "eio", "once"}[r.Intn(6)]
 		}
 	}
 	// after the faulted step, make sure an identical fault-free invocation follows
 	last := -1
 	for i, s := range c.Steps {
-		if s.Run != nil && (len(s.Run.Faults) > 0 || s.Run.SinkLimit != nil) {
+		if s.Run != nil && (len(s.Run.Faults) > 0 || s.Run.SinkLimit != nil || s.Run.StdinFail > 0) {
 			last = i
 		}
 	}
+	_ = stdinFailed
 	if last < 0 {
 		return nil
 	}
